@@ -9,7 +9,8 @@ Everything below is about the terms GENERATED from the current `/repo` source by
 files, with a kernel-evaluated certificate `<name>_dim : Expr.dim Γ <name> = .is d` for the DECLARED dimension `d` (exponent of
 the length unit) of the hook / junction / residual / argument it stands for, relative to the declared variable typing `Γ`
 (`gammaTable`).  A table row (`Dims.Entry Γ`) carries its certificate, so a changed formula whose dimension no longer comes
-out as declared cannot stay in its table: it moves to `inhomogeneous`, whose content is pinned by `inhomogeneous_items`.
+out as declared cannot stay in its table: it moves to `inhomogeneous`, every row of which must be one of the `accepted`
+exceptions (`inhomogeneous_accepted`).
 
 `scaleEnv Γ k ρ` is the environment `ρ` with every variable `v` multiplied by `k ^ Γ(v)`: all length inputs scaled by `k`,
 areas by `k²`, …, angles / stresses / times / frequencies / material data untouched.  The metatheorem
@@ -198,24 +199,32 @@ theorem convergence_test_scale_free (c o p k : ℝ) (d : ℤ) (hk : 0 < k) :
 
 /-! ### what is NOT homogeneous -/
 
-/-- The complete list of translated items whose certificate is not the declared one (each row of `inhomogeneous` carries the
-    kernel-checked refutation).  An edit of the source that adds an absolute tolerance, a `+ constant`, or a dimensionally
-    wrong term to any translated formula or decision makes this list longer and this theorem fail. -/
-theorem inhomogeneous_items :
-    inhomogeneous.map (·.key) =
-      ["profile/hookimpls.py:astm_grain_size_number#alt0",
-       "roll_pass/hookimpls/base_roll_pass.py:contact_contour_lines:arg:buffer#1",
-       "grooves/generic_elongation.py:GenericElongationGroove.__init__:isclose#1",
-       "grooves/generic_elongation.py:GenericElongationGroove.__init__:isclose#2",
-       "grooves/generic_elongation.py:GenericElongationGroove._enumerate_contour_points:isclose#1",
-       "grooves/generic_elongation.py:GenericElongationGroove._enumerate_contour_points:isclose#2",
-       "grooves/generic_elongation.py:GenericElongationGroove._enumerate_contour_points:isclose#3",
-       "grooves/generic_elongation.py:GenericElongationGroove._enumerate_contour_points:isclose#4",
-       "grooves/generic_elongation.py:GenericElongationGroove._enumerate_contour_points:isclose#5",
-       "profile/profile.py:Profile.local_height:arg:buffer#1",
-       "profile/profile.py:Profile.local_width:arg:buffer#1",
-       "sequence/sequence.py:PassSequence.solve_velocities_backward:cmp#1",
-       "sequence/sequence.py:PassSequence.solve_velocities_forward:cmp#1"] := rfl
+/-- The ACCEPTED exceptions (stable keys `file:function:kind#ordinal`): the unit-bound ASTM grain-size number, the absolute
+    buffers `1e-9` / `1e-12`, `np.isclose` on the depth and on the junction coordinates, the absolute stop test `0.01` of
+    the velocity loops. -/
+def accepted : List String :=
+  ["profile/hookimpls.py:astm_grain_size_number#alt0",
+   "roll_pass/hookimpls/base_roll_pass.py:contact_contour_lines:arg:buffer#1",
+   "grooves/generic_elongation.py:GenericElongationGroove.__init__:isclose#1",
+   "grooves/generic_elongation.py:GenericElongationGroove.__init__:isclose#2",
+   "grooves/generic_elongation.py:GenericElongationGroove._enumerate_contour_points:isclose#1",
+   "grooves/generic_elongation.py:GenericElongationGroove._enumerate_contour_points:isclose#2",
+   "grooves/generic_elongation.py:GenericElongationGroove._enumerate_contour_points:isclose#3",
+   "grooves/generic_elongation.py:GenericElongationGroove._enumerate_contour_points:isclose#4",
+   "grooves/generic_elongation.py:GenericElongationGroove._enumerate_contour_points:isclose#5",
+   "profile/profile.py:Profile.local_height:arg:buffer#1",
+   "profile/profile.py:Profile.local_width:arg:buffer#1",
+   "sequence/sequence.py:PassSequence.solve_velocities_backward:cmp#1",
+   "sequence/sequence.py:PassSequence.solve_velocities_forward:cmp#1"]
+
+/-- **Every translated item whose certificate is not the declared one is an accepted exception** (each row of `inhomogeneous`
+    carries the kernel-checked refutation of its certificate).  An edit of the source that adds an absolute tolerance, a
+    `+ constant` or a dimensionally wrong term to any translated formula, decision or geometry argument puts a new row into
+    `inhomogeneous` and this theorem fails; a repair that removes a row leaves it true. -/
+theorem inhomogeneous_accepted : ∀ en ∈ inhomogeneous, en.key ∈ accepted := by
+  simp only [inhomogeneous, badHooks, badGeom, badClosed, badSites, List.append_nil, List.nil_append,
+    List.cons_append, List.forall_mem_cons, List.not_mem_nil, false_imp_iff, implies_true, and_true]
+  simp only [accepted, List.mem_cons, true_or, or_true, and_self]
 
 theorem inhomogeneous_refuted : ∀ en ∈ inhomogeneous, ¬ Cert Γ en.e en.d := fun en _ => en.bad
 
